@@ -28,6 +28,10 @@ def load_findings() -> list[dict]:
     return []
 
 
+class BudgetExceeded(Exception):
+    """Raised by Ctx.case when the thorough tier has used its time budget: the run ends normally."""
+
+
 class Ctx:
     """State of one check run."""
 
@@ -53,7 +57,7 @@ class Ctx:
         self.tlc_runs: list[dict] = []
         self.exhaustive = False
         self.findings = [f for f in load_findings() if pid in f["properties"]]
-        self.budget_s = float(os.environ.get("VERIF_BUDGET_S", "0") or 0)
+        self.budget_s = float(os.environ.get("VERIF_BUDGET_S") or (2400 if tier == "thorough" else 0))
 
     # -- tiers ---------------------------------------------------------
     @property
@@ -98,6 +102,10 @@ class Ctx:
 
     # -- cases ---------------------------------------------------------
     def case(self, key=None, nontrivial: bool = True):
+        # the thorough tier explores until its time budget is used up (VERIF_BUDGET_S, default 40 min), then
+        # reports on what it covered; the quick tier has fixed sizes and no budget
+        if self.tier == "thorough" and self.out_of_time():
+            raise BudgetExceeded()
         self.evaluations += 1
         if nontrivial and key is not None:
             if not isinstance(key, (str, bytes)):
@@ -215,7 +223,12 @@ def main(argv=None) -> int:
             case = json.loads(Path(a.replay).read_text())
             mod.replay(ctx, case)
         else:
-            mod.run(ctx)
+            try:
+                mod.run(ctx)
+            except BudgetExceeded:
+                ctx.extra["stopped_at_budget_s"] = round(time.time() - ctx.t0, 1)
+                ctx.exhaustive = False
+                print(f"NOTE: thorough run stopped at its time budget ({ctx.budget_s:.0f} s) after {ctx.evaluations} evaluations")
         return ctx.finish()
     except tlcmod.MachineryError as ex:
         print(f"MACHINERY property={pid} {ex}")
